@@ -70,7 +70,7 @@ def _replay_pauli(mv, ob):
     return dict(reproduced=bool(bad), input="angles inside and outside [0, pi) x [0, 2 pi)", failed=bad[:3])
 
 
-@unit("C25", "SOC.get_pauli_rotated (all angles)", expect_min=4, timeout_ms=60000, replay=_replay_pauli, replay_once=True)
+@unit("C25", "SOC.get_pauli_rotated (all angles)", expect_min=4, timeout_ms=60000, replay=_replay_pauli, replay_once=True, replay_free=True)
 def _pauli(U):
     # cos / sin of a symbolic argument: one pair of real symbols PER DISTINCT ARGUMENT TERM, tied by c^2+s^2=1 (so the code must take
     # them of theta/2 and -phi/2 themselves: any other argument yields unrelated symbols and the identities below fail)
@@ -304,7 +304,7 @@ _socaxis_unit(1)
 _socaxis_unit(2)
 
 
-@unit("C25", "merge_Rvectors + SystemSOC.get_system_R", scope="shape:R-sets of sizes 2,3,3 with partial overlap", expect_min=3)
+@unit("C25", "merge_Rvectors + SystemSOC.get_system_R", scope="shape:R-sets of sizes 2,3,3 with partial overlap; magnetic (two channels) and non-magnetic (one channel used twice)", expect_min=6)
 def _merge(U):
     made = []
 
@@ -326,6 +326,7 @@ def _merge(U):
 
     def body():
         lat = rnp.eye(3)
+        nspin = 1 + ctx().choose(2, "nspin - 1 (1: non-magnetic, the down channel IS the up system; 2: magnetic, own R-set)")
 
         def rv(R):
             o = _Obj()
@@ -335,7 +336,10 @@ def _merge(U):
         Rs = [[0, 0, 0], [1, 0, 0]]
         Ru = [[0, 0, 0], [0, 1, 0], [-1, 0, 0]]
         Rd = [[0, 0, -1], [0, 0, 0], [1, 0, 0]]
-        r_s, r_u, r_d = rv(Rs), rv(Ru), rv(Rd)
+        if nspin == 1:
+            Rd = Ru
+        r_s, r_u = rv(Rs), rv(Ru)
+        r_d = r_u if nspin == 1 else rv(Rd)
         merged, maps = mrg([r_s, r_u, r_d])
         allR = {tuple(x) for x in Rs + Ru + Rd}
         U.ensure("merged list = duplicate-free union of the R-sets", len(merged.iRvec) == len(allR) and {tuple(x) for x in merged.iRvec} == allR)
@@ -350,7 +354,9 @@ def _merge(U):
         SSs = sym_cplx_array("SS", (2, 2, 2, 3))
         up._XX_R, dn._XX_R = {"Ham": Hu}, {"Ham": Hd}
         up.get_R_mat, dn.get_R_mat = (lambda k: up._XX_R[k]), (lambda k: dn._XX_R[k])
-        me.system_up, me.system_down = up, dn
+        if nspin == 1:                # as SystemSOC.__init__ sets it up: one spin channel, system_down is system_up
+            dn, Hd = up, Hu
+        me.system_up, me.system_down, me.nspin = up, dn, nspin
         me.get_R_mat = lambda k: {"Ham_SOC": Hsoc, "SS": SSs}[k]
         me.is_phonon, me.num_wann, me.real_lattice, me.periodic = False, 2, lat, rnp.array([True] * 3)
         me.wannier_centers_cart, me.pointgroup, me.force_internal_terms_only, me.cell = rnp.zeros((2, 3)), None, False, None
